@@ -17,11 +17,22 @@ Allowed == [
   nul_value |-> {"reject", "cl"}, bare_lf |-> {"reject", "cl"}, bare_cr_value |-> {"reject", "cl"},
   bad_chunk_size |-> {"reject"}, chunk_size_plus |-> {"reject"}, chunk_size_0x |-> {"reject"}, chunk_ext_garbage |-> {"reject"},
   chunk_missing_crlf |-> {"reject"}, chunk_lf_only |-> {"reject", "te"},
-  http10_te |-> {"reject", "te"}, none |-> {"cl"}, none_te |-> {"te"} ]
+  http10_te |-> {"reject", "te"}, none |-> {"cl"}, none_te |-> {"te"},
+  \* well-formed messages whose (large) body consists of bytes that read as chunk framing, sent while the next hop does not
+  \* read (back pressure through the request body pipe): one admissible reading only; shift = alignment of the framing-like units
+  big_te |-> {"te"}, big_cl |-> {"cl"},
+  \* the same, but the message has no body consumer for a second (a slow url_rewrite helper): the body pipe fills to its
+  \* capacity; request-shaped units sit at the usual buffer capacities (shift 0: 2^k - 1, shift 1: 2^k)
+  slow_te |-> {"te"}, slow_cl |-> {"cl"} ]
 Kinds == DOMAIN Allowed
+Big == {"big_te", "big_cl"}
+Slow == {"slow_te", "slow_cl"}
 VARIABLES par, out
 vars == <<par, out>>
-Init == /\ par \in [kind : Kinds, pos : 1..2, total : 2..3, payload : BOOLEAN, relaxed : BOOLEAN] /\ out = {}
+Init == /\ par \in [kind : Kinds \ (Big \cup Slow), pos : 1..2, total : 2..3, payload : BOOLEAN, relaxed : BOOLEAN, shift : {0}]
+                  \cup [kind : Big, pos : 1..2, total : {2}, payload : {FALSE}, relaxed : BOOLEAN, shift : 0..5]
+                  \cup [kind : Slow, pos : 1..2, total : {2}, payload : {TRUE}, relaxed : BOOLEAN, shift : 0..1]
+        /\ out = {}
 Next == out = {} /\ out' = Allowed[par.kind] /\ UNCHANGED par
 Spec == Init /\ [][Next]_vars
 \* sanity of the catalogue: a kind whose only admissible disposition is "reject" never admits a body interpretation
